@@ -84,7 +84,19 @@ class RealBook:
             self.lp.nonce |= 0x80000000
         self.lp.chain_manager.set_coinstate(CoinState.zero())
         self.nm = self.lp.network_manager
-        self.nm.disconnected_peers = load_peers_from_list([(h, p, OUTGOING) for h, p in initial])
+        # the initial peer book comes from the peer file, read by the node's own start-up routine (every other book; the
+        # others get it from a list in memory, as the test-suite does)
+        if initial and RealBook.instances % 2 == 0:
+            import contextlib
+            import io as _io
+            import json as _json
+            with open("peers.json", "w") as fh:
+                _json.dump([[h, p, "OUTGOING", "2021-03-14T21:00:00Z"] for h, p in initial], fh, indent=4)
+            with contextlib.redirect_stdout(_io.StringIO()):
+                self.nm.disconnected_peers = self.lp.disk_interface.load_peers()
+            RealBook.from_file = getattr(RealBook, "from_file", 0) + 1
+        else:
+            self.nm.disconnected_peers = load_peers_from_list([(h, p, OUTGOING) for h, p in initial])
         self.attempts = []
         self.errors = []
         orig = self.lp.start_outgoing_connection
